@@ -48,6 +48,8 @@ def watchdog(seconds):
 
 # ---------------------------------------------------------------- line tracer
 TRACED = {"aio_submit": "scheduler/base.py", "aio_start": "scheduler/base.py", "aio_run": "commandline.py"}
+if SPEC.get("trace_process"):
+    TRACED["aio_process"] = "commandline.py"  # CommandLineJob.aio_process: the look-up of a running process
 if SPEC.get("trace_write"):
     TRACED["write"] = "scriptbuilder.py"     # PythonScriptBuilder.write: the job script is rewritten in place
 KILL = SPEC.get("kill")
@@ -226,7 +228,7 @@ def main():
                                           type=type(outs.get(k)).__name__, error=errs.get(k)) for k in sorted(set(outs) | set(errs))]
             result["njobs"] = len(xp.scheduler.jobs)
             phase("submitted")
-        elif wl["kind"] == "tok2":
+        elif wl["kind"] in ("tok1", "tok2"):
             # two independent jobs sharing a counter token of total 1
             token = xp.workspace.connector.createtoken("vtoken", 1)
             for tg in wl["tags"]:
